@@ -96,7 +96,7 @@ def dcCallM (tbl inputs : List DField) (n : Node) (args : List Val) (kw : List (
   | (n1, .ok _) =>
     if buildable inputs then
       ({ n1 with outs := n1.outs.map fun o => (o.1, built tbl n1.ins) }, .ret (built tbl n1.ins))
-    else (n1, .typeError)
+    else (n1, .runError)   -- `TypeError: __init__() got an unexpected keyword argument`
 
 /-! ## a memo of a class-level computation, per class or as an inherited class attribute
 
